@@ -1,0 +1,14 @@
+//go:build verif
+
+package server
+
+import "github.com/DrmagicE/gmqtt/config"
+
+// VerifWithRedisPersistence selects the redis persistence backend at addr.
+// It edits the configuration in place, so it must come after WithConfig in the option list.
+func VerifWithRedisPersistence(addr string) Options {
+	return func(srv *server) {
+		srv.config.Persistence.Type = config.PersistenceTypeRedis
+		srv.config.Persistence.Redis.Addr = addr
+	}
+}
